@@ -13,6 +13,9 @@ import warnings
 VERIF = os.path.dirname(os.path.dirname(os.path.abspath(__file__)))
 REPO = os.path.abspath(os.environ.get("VERIF_REPO", "/repo"))
 DEPS = os.path.join(VERIF, ".deps")
+# where a run writes evidence/, replays/ and out/ (default: /verif itself; trials against a scratch tree redirect it so
+# that the committed evidence always comes from runs against /repo)
+OUT = os.path.abspath(os.environ.get("VERIF_OUT", VERIF))
 WHEELS = "/opt/veriftools/wheels"
 PY = sys.executable or "/venv/bin/python"
 GUARD = "QUICKADD_VERIF"
